@@ -105,9 +105,9 @@ def run(tier):
     vlib.ensure_build(frontend_only=True)
     chk = Check(PID, tier)
     seed = chk.seed
-    total, ngraphs = (24000, 80) if tier == "quick" else (600000, 2000)
+    total, ngraphs = (24000, 150) if tier == "quick" else (600000, 2000)
     chk.rule = ("mutants: case i is derived from (repository .ddp corpus, VERIF_SEED, i) by 1-3 mutators (token/line/byte/structure level, import "
-                "statements, CRLF), <= 8 KiB; import graphs: fixed hostile catalogue + seeded random graphs of 2-7 modules. A case is distinct by the "
+                "statements, CRLF), <= 8 KiB; import graphs: fixed hostile catalogue + 48 generic-instantiation graphs (polymorphic recursion over 1-4 types, 4 module layouts) + seeded random graphs of 2-7 modules. A case is distinct by the "
                 "hash of its bytes (mutants) or its graph id; every case is non-trivial (it is parsed by the real front end). Oracle: worker returns "
                 "without panic/fatal error; CPU <= 5 s + 2 ms/byte; RSS <= 256 MiB + 64 KiB/byte; Go max stack 256 MiB.")
     chk.assumptions = ["inputs are at most 8 KiB; import graphs at most 7 modules", "a worker death that does not reproduce alone in a fresh worker is counted inconclusive"]
